@@ -388,6 +388,10 @@ def stub_find_graph_dict(mcs_dict, n_jobs=4):
     return out
 
 
+class MergeFailure(Exception):
+    """what the merge stub raises: an arbitrary exception type (the merge code raises several of its own)"""
+
+
 class _Rule:
     def __init__(self, name):
         self.name = name
@@ -418,7 +422,7 @@ def stub_merge(cset):
     content = cset[0]
     mode = W.mcs.get(content, MCS_FAIL)
     if mode == MCS_MERGE_RAISE:
-        raise ValueError("merge failed (stub)")
+        raise MergeFailure("merge failed (stub)")
     return _MergeResult(W.merge_tok.get(content, "M"))
 
 
